@@ -165,9 +165,9 @@ def div4by2Loop (W d : Nat) : List Nat → Nat → Except PanicKind (List Nat ×
     pure (q % 2 ^ W :: q / 2 ^ W :: qs, r')
   | rest, rem => .ok (rest, rem)
 
-/-- `fast_div_by_dword_in_place(words, shift, fast_div_rhs)`; `d` is the normalised divisor -/
-def fastDivByDwordInPlace (W : Nat) (ws : List Nat) (shift d : Nat) : Except PanicKind (List Nat × Nat) :=
-  let (ws', hi) := shlInPlace W ws shift
+/-- body of `fast_div_by_dword_in_place` after the shift: `ws'` = shifted words, `hi` = shift carry;
+    returns (quotient words, remainder still shifted) -/
+def fastDivByDwordCore (W d : Nat) (ws' : List Nat) (hi : Nat) : Except PanicKind (List Nat × Nat) :=
   let n := ws'.length
   match ws'.drop (n - 2) with
   | [topLo, topHi] => do
@@ -175,15 +175,21 @@ def fastDivByDwordInPlace (W : Nat) (ws : List Nat) (shift d : Nat) : Except Pan
     let (q, rem) ← div3by2 W d topLo (topHi + 2 ^ W * hi)
     if lo.length % 2 = 0 then
       let (qs, r) ← div4by2Loop W d lo rem
-      pure (qs ++ [q, 0], r / 2 ^ shift)
+      pure (qs ++ [q, 0], r)
     else
       match lo with
       | x :: pairs =>
         let (qs, r) ← div4by2Loop W d pairs rem
         let (q0, r0) ← div3by2 W d x r
-        pure (q0 :: qs ++ [q, 0], r0 / 2 ^ shift)
+        pure (q0 :: qs ++ [q, 0], r0)
       | [] => .error (assertErr "unreachable")
   | _ => .error (assertErr "fast_div_by_dword_in_place: words.len() >= 2")
+
+/-- `fast_div_by_dword_in_place(words, shift, fast_div_rhs)`; `d` is the normalised divisor -/
+def fastDivByDwordInPlace (W : Nat) (ws : List Nat) (shift d : Nat) : Except PanicKind (List Nat × Nat) := do
+  let (ws', hi) := shlInPlace W ws shift
+  let (qs, r) ← fastDivByDwordCore W d ws' hi
+  pure (qs, r / 2 ^ shift)
 
 /-- `div_by_dword_in_place(words, rhs)`, `rhs ≥ 2^W` -/
 def divByDwordInPlace (W : Nat) (ws : List Nat) (rhs : Nat) : Except PanicKind (List Nat × Nat) :=
@@ -582,11 +588,14 @@ def divRemSmallDouble (W lhs d shift : Nat) : Except PanicKind (Nat × Nat) := d
   pure (q, r / 2 ^ shift)
 
 /-- `ConstSingleDivisor::rem_dword(dword)` = (dword << shift) % d.
-    NOTE the `shift == 0` arm calls `div_rem_2by1(dword)` directly although the high word of
-    `dword` need not be below the divisor (finding C02/ConstDivisor-rem). -/
+    The `shift == 0` arm reduces the high word with `div_rem_1by1` first (since /repo commit
+    2941615; before it `div_rem_2by1(dword)` was called outside its contract). -/
 def singleRemDword (W d shift dword : Nat) : Except PanicKind Nat :=
   if shift = 0 then do
-    let (_, r) ← div2by1 W d dword
+    let lo := dword % 2 ^ W
+    let hi := dword / 2 ^ W
+    let r1 := (div1by1 d hi).2
+    let (_, r) ← div2by1 W d (lo + 2 ^ W * r1)
     pure r
   else do
     let (n0, n1, n2) := shlDword W dword shift
